@@ -247,13 +247,104 @@ def F22():
     return f"joint action lost the forall effects of its member: {missing}" if missing else None
 
 
+# ----------------------------------------------------------------------------- known findings (recorded, not repaired)
+KDOMAIN = DOMAIN.replace("(:action a-inc", """(:action a-or
+ :parameters (?x - top)
+ :precondition (and (or (p ?x) (q ?x)))
+ :effect (and (z)))
+(:action a-forall
+ :parameters (?x - top)
+ :precondition (and (forall (?y - mid) (and (q ?y))))
+ :effect (and (z)))
+(:action a-rep
+ :parameters (?x - top)
+ :precondition (and (r ?x ?x))
+ :effect (and (z)))
+(:action a-cond
+ :parameters (?x - top)
+ :precondition (and (p ?x) (or (and (>= (f ?x) 0.123456)) (q ?x)))
+ :effect (and (when (>= (f ?x) 0.123456) (z))))
+(:action a-inc""")
+
+
+def K1():
+    d, p = parse(KDOMAIN)
+    lit = [o for o in d.actions["a-rep"].preconditions.root.operands][0]
+    out = []
+    if len(lit.signature) != 2:
+        out.append(f"(r ?x ?x) parsed as {lit.untyped_representation}")
+    _, p2 = parse(KDOMAIN, PROBLEM.replace("(= (dist a b) 3)", "(= (dist a b) 3) (= (dist b b) 1)"))
+    return "; ".join(out) or None
+
+
+def K1b():
+    dom = KDOMAIN.replace("(dist ?x - top ?y - top)", "(dist ?x - top ?y - top) (tri ?x - top ?y - top ?z - top)")
+    d, p = parse(dom, PROBLEM.replace("(= (dist a b) 3)", "(= (tri a b a) 3)"))
+    got = [f.state_representation for f in p.initial_state_fluents.values() if f.name == "tri"]
+    return f"(= (tri a b a) 3) is stored / written back as {got}" if got != ["(= (tri a b a) 3.0)"] else None
+
+
+def K2():
+    d, p = parse(KDOMAIN, PROBLEM.replace("(p a) ", ""))
+    s0 = init_state(p)   # neither (p a) nor (q a) holds
+    out = []
+    if Operator(d.actions["a-or"], d, ["a"], p.objects).is_applicable(s0):
+        out.append("(and (or (p a) (q a))) reported applicable although both disjuncts are false")
+    if Operator(d.actions["a-forall"], d, ["a"], p.objects).is_applicable(s0):
+        out.append("(forall (?y - mid) (q ?y)) reported applicable although (q m) is false")
+    return "; ".join(out) or None
+
+
+def K5():
+    out = []
+    for txt in ("(a b))", "(a b) (c d)"):
+        try:
+            out.append(f"{txt!r} accepted as {PDDLTokenizer(pddl_str=txt).parse()}")
+        except Exception:
+            pass
+    return "; ".join(out) or None
+
+
+def K7():
+    from pddl_plus_parser.models.numeric_symbolic_operations import simplify_complex_numeric_expression as s
+    out = []
+    got = s("(1 / ((fuel ?x) * (fuel ?x)))")
+    if "^" in got:
+        out.append(f"1/(x*x) printed as {got}")
+    got = s("((dist a bc) - (dist ab c))")
+    if got.strip() == "0":
+        out.append("(dist a bc) - (dist ab c) simplified to 0 (symbols merged)")
+    try:
+        s("((fuel ?x) / 2)")
+    except Exception as e:
+        out.append(f"x/2 raises {type(e).__name__}")
+    return "; ".join(out) or None
+
+
+def K8():
+    d, _ = parse(KDOMAIN, None)
+    a = d.actions["a-cond"]
+    a.change_signature({"?x": "?renamed"})
+    txt = " ".join(str(c) for c in a.conditional_effects).replace("\n", " ").replace("\t", " ")
+    return f"after renaming ?x the conditional effect still reads {txt}" if "?x" in txt else None
+
+
+def K9():
+    d, _ = parse(KDOMAIN, None)
+    from pddl_plus_parser.exporters import DomainExporter
+    txt = DomainExporter().write_action(d.actions["a-cond"])
+    return "should_simplify=False / default digits ignored for nested conditions: 0.123456 printed as " + \
+        str([t for t in txt.replace(")", " ").split() if t.startswith("0.1")]) if "0.1235" not in txt else None
+
+
+KNOWN = [K1, K1b, K2, K5, K7, K8, K9]
 ALL = [F1, F2, F3, F4, F6, F7, F9, F10, F11, F12, F13, F14, F15, F17, F18, F19, F20, F21, F22]
 
 
 def main():
     want = sys.argv[1:]
     rc = 0
-    for fn in ALL:
+    for fn in ALL + (KNOWN if (want and any(w.startswith("K") for w in want)) else []):
         if want and fn.__name__ not in want:
             continue
         try:
